@@ -20,6 +20,9 @@ def cond_atom(body, l, depth=0):
         seen += 1
         ds = body.defs().get(l, [])
         full = [d for d in ds if d[2] in ("assign", "call")]
+        if l in body.borrowed():
+            # the local can change through a pointer (e.g. a flag captured by a closure): keep it symbolic
+            return neg, ("multi", l)
         if len(full) != 1:
             # multiple assignments (e.g. && / || lowering or flag): not a simple atom
             return neg, ("multi", l)
